@@ -91,7 +91,7 @@ class Runner:
         self.variant = variant
         self.vflags: dict[str, Any] = {}
         name = f"K{self.n}"
-        lines = [f"class {name}[T](State):" if variant in ("generic", "typevar", "typevar-subclass") else f"class {name}(State):"]
+        lines = [f"class {name}[T](State):" if variant in ("generic", "typevar", "typevar-subclass", "typevar-child") else f"class {name}(State):"]
         if variant == "generic":
             lines.append("    hv_t: T")
         argument = None
@@ -133,6 +133,9 @@ class Runner:
             lines += [f"{name}P = {name}[{A.render(argument)}]"]
         if variant == "typevar-subclass":
             lines += [f"class {name}P({name}[{A.render(argument)}]):", "    pass"]
+        if variant == "typevar-child":
+            # a generic child that hands its own type variable on to the generic base, specialised afterwards
+            lines += [f"class {name}C[U]({name}[U]):", "    pass", f"{name}P = {name}C[{A.render(argument)}]"]
         src = "\n".join(lines) + "\n"
         try:
             self.N.define(src)
@@ -142,7 +145,7 @@ class Runner:
             return None
         # keep the namespace small
         if self.n % 50 == 0:
-            for k in [k for k in self.N.ns if k.startswith("K") and k[1:].rstrip("SP").isdigit() and int(k[1:].rstrip("SP")) < self.n - 5]:
+            for k in [k for k in self.N.ns if k.startswith("K") and k[1:].rstrip("SPC").isdigit() and int(k[1:].rstrip("SPC")) < self.n - 5]:
                 del self.N.ns[k]
         return cls, src
 
@@ -302,7 +305,7 @@ class Runner:
                     mode = "none"
             attrs.append((names[i], term, default))
             info.append(mode)
-        variant = rng.choice(["plain", "plain", "subclass", "generic", "typevar", "typevar-subclass"]) if fixed is None else fixed[1]
+        variant = rng.choice(["plain", "plain", "subclass", "generic", "typevar", "typevar-subclass", "typevar-child"]) if fixed is None else fixed[1]
         made = self.make_class(attrs, variant, fixed[2] if fixed is not None else None)
         if made is None:
             return
@@ -376,14 +379,14 @@ def run(R: Recorder, tier: str, seed: int, shard: int, nshards: int) -> None:
         if i % nshards == shard:
             run.exercise_term(term, rng, nconf=8 if tier == "quick" else 4, full_battery=(tier == "quick" or i % 4 == 0))
             # the same term once more with one of its subterms passed in as a type argument (directly / through a subclass of the specialisation)
-            run.exercise_term(term, rng, nconf=2, full_battery=False, variant="typevar" if i % 2 else "typevar-subclass")
+            run.exercise_term(term, rng, nconf=2, full_battery=False, variant=("typevar", "typevar-subclass", "typevar-child")[i % 3])
     if shard == 0:
         # fixed probes: type arguments substituted below the top level of generic State / alias arguments, two-argument generic
         # states, subclasses of specialisations - and the one spelling that is a known finding (type argument None)
         S, P = ("prim", "str"), ("prim", "int")
         for term, pos in ((("generic", "Pair2", [("seq", ("none",)), S]), (0, 0)), (("generic", "Pair2", [("seq", P), S]), (0, 0)), (("generic", "Box", [("set", P)]), (0, 0)),
                           (("palias", "MaybeSeq", [("frozenset", P)]), (0, 0)), (("generic", "Pair2", [P, ("generic", "Box", [P])]), (0,)), (("seq", ("palias", "MaybeSeq", [("generic", "Box", [("none",)])])), (0, 0, 0))):
-            for variant in ("typevar", "typevar-subclass"):
+            for variant in ("typevar", "typevar-subclass", "typevar-child"):
                 run.exercise_term(term, rng, nconf=4, full_battery=False, variant=variant, force=(0, pos))
                 run.exercise_defaults(rng, fixed=([term], variant, (0, pos)))
     rngt = random.Random(f"C05/{seed}")
@@ -391,7 +394,7 @@ def run(R: Recorder, tier: str, seed: int, shard: int, nshards: int) -> None:
         term = A.gen_term(rngt, rngt.randint(2, 4))
         if i % nshards != shard:
             continue
-        run.exercise_term(term, rng, nconf=3, full_battery=False, variant=("plain", "typevar", "typevar-subclass")[i % 3])
+        run.exercise_term(term, rng, nconf=3, full_battery=False, variant=("plain", "typevar", "typevar-subclass", "typevar-child")[i % 4])
         if i % 3 == 0:
             run.exercise_two_bases(rng)
         run.exercise_defaults(rng)
